@@ -383,6 +383,7 @@ func (c *Client) sendInput(ctx context.Context, info proto.ColInfoInput, q Query
 	//
 	// NB: atomicity is guaranteed only within single block.
 	for {
+		verifAt(ctx, c, "S.encblock")
 		if err := ctx.Err(); err != nil {
 			return errors.Wrap(err, "context")
 		}
@@ -394,9 +395,11 @@ func (c *Client) sendInput(ctx context.Context, info proto.ColInfoInput, q Query
 			break
 		}
 		// Flushing the buffer to prevent high memory consumption.
+		verifAt(ctx, c, "S.flushr")
 		if err := c.flush(ctx); err != nil {
 			return errors.Wrap(err, "flush")
 		}
+		verifAt(ctx, c, "S.cb")
 		if err := f(ctx); err != nil {
 			if errors.Is(err, io.EOF) {
 				// No more data.
@@ -420,6 +423,7 @@ func (c *Client) sendInput(ctx context.Context, info proto.ColInfoInput, q Query
 		}
 	}
 End:
+	verifAt(ctx, c, "S.term")
 	// End of input stream.
 	//
 	// Encoding that there are no more data.
@@ -687,6 +691,7 @@ func (c *Client) Do(ctx context.Context, q Query) (err error) {
 				}
 				ce.Write(zap.Any("columns", info))
 			}
+			verifAt(ctx, c, "R.info")
 			select {
 			case <-ctx.Done():
 				return ctx.Err()
@@ -697,28 +702,39 @@ func (c *Client) Do(ctx context.Context, q Query) (err error) {
 	}
 	g.Go(func() error {
 		// Sending data.
+		verifAt(ctx, c, "S.start")
 		if err := c.sendQuery(ctx, q); err != nil {
+			verifAt(ctx, c, "S.ret", err)
 			return errors.Wrap(err, "send query")
 		}
+		verifAt(ctx, c, "S.flushq")
 		if err := c.flush(ctx); err != nil {
+			verifAt(ctx, c, "S.ret", err)
 			return errors.Wrap(err, "flush")
 		}
 		var info proto.ColInfoInput
 		if colInfo != nil {
 			c.lg.Debug("Waiting for column info")
+			verifAt(ctx, c, "S.colinfo")
 			select {
 			case <-ctx.Done():
+				verifAt(ctx, c, "S.ret", ctx.Err())
 				return ctx.Err()
 			case v := <-colInfo:
 				info = v
 			}
 		}
+		verifAt(ctx, c, "S.input")
 		if err := c.sendInput(ctx, info, q); err != nil {
+			verifAt(ctx, c, "S.ret", err)
 			return errors.Wrap(err, "send input")
 		}
+		verifAt(ctx, c, "S.finalflush")
 		if err := c.flush(ctx); err != nil {
+			verifAt(ctx, c, "S.ret", err)
 			return errors.Wrap(err, "flush")
 		}
+		verifAt(ctx, c, "S.ret", nil)
 		return nil
 	})
 	g.Go(func() error {
@@ -729,7 +745,9 @@ func (c *Client) Do(ctx context.Context, q Query) (err error) {
 		}
 		onResult := c.resultHandler(q)
 		for {
+			verifAt(ctx, c, "R.loop")
 			if ctx.Err() != nil {
+				verifAt(ctx, c, "R.ret", ctx.Err())
 				return ctx.Err()
 			}
 			code, err := c.packet(ctx)
@@ -738,6 +756,7 @@ func (c *Client) Do(ctx context.Context, q Query) (err error) {
 				if errors.As(err, &opErr) && opErr.Timeout() {
 					continue
 				}
+				verifAt(ctx, c, "R.ret", err)
 				return errors.Wrap(err, "packet")
 			}
 			switch code {
@@ -747,9 +766,11 @@ func (c *Client) Do(ctx context.Context, q Query) (err error) {
 					Result:       q.Result,
 					Compressible: code.Compressible(),
 				}); err != nil {
+					verifAt(ctx, c, "R.ret", err)
 					return errors.Wrap(err, "decode block")
 				}
 			case proto.ServerCodeEndOfStream:
+				verifAt(ctx, c, "R.ret", nil)
 				return nil
 			default:
 				if err := c.handlePacket(ctx, code, q); err != nil {
@@ -757,6 +778,7 @@ func (c *Client) Do(ctx context.Context, q Query) (err error) {
 						// Prevent query cancellation on exception.
 						gotException.Store(true)
 					}
+					verifAt(ctx, c, "R.ret", err)
 					return errors.Wrap(err, "handle packet")
 				}
 			}
@@ -764,12 +786,16 @@ func (c *Client) Do(ctx context.Context, q Query) (err error) {
 	})
 	g.Go(func() error {
 		<-done
+		verifAt(ctx, c, "W.wake")
 		// Handling query cancellation if needed.
 		if ctx.Err() != nil && !gotException.Load() {
 			err := multierr.Append(ctx.Err(), c.cancelQuery())
+			verifAt(ctx, c, "W.ret", err)
 			return errors.Wrap(err, "canceled")
 		}
+		verifAt(ctx, c, "W.ret", nil)
 		return nil
 	})
+	defer verifAt(ctx, c, "D.ret")
 	return g.Wait()
 }
